@@ -35,7 +35,11 @@ func renderSource(config string, macros []string, macrosAfter bool, secs []secTe
 		if s.kind == ".romdata" {
 			b.WriteString("%section " + s.name + " .romdata\n")
 		} else {
-			b.WriteString("%section " + s.name + " .romtext iomode:" + s.iomode + "\n")
+			if s.iomode == "" {
+				b.WriteString("%section " + s.name + " .romtext\n")
+			} else {
+				b.WriteString("%section " + s.name + " .romtext iomode:" + s.iomode + "\n")
+			}
 		}
 		for _, l := range s.lines {
 			if strings.HasSuffix(l, ":") {
@@ -727,6 +731,60 @@ func genSyncTwoCP(emit emitFn) {
 	}
 }
 
+// ---------- family G: where the iomode is stated (section, global, both) ----------
+// mov to/from an IO port takes its mode from the section if the section states one, else from
+// `%meta bmdef global iomode:`. Every (section A, section B, global) statement in {none, sync, async}^3 for which
+// both sections end up with the same, defined mode; the global statement before and after registersize.
+func genIOModePrecedence(emit emitFn) {
+	prod := []string{"entry la", "la:", "inc r0", "mov o0, r0", "j la"}
+	cons := []string{"entry la", "la:", "mov r0, i0", "r2o r0, o0", "j la"}
+	modes := []string{"", "sync", "async"}
+	eff := func(sec, glob string) string {
+		if sec != "" {
+			return sec
+		}
+		return glob
+	}
+	for _, a := range modes {
+		for _, b := range modes {
+			for _, g := range modes {
+				if eff(a, g) == "" || eff(a, g) != eff(b, g) {
+					continue
+				}
+				for _, globFirst := range []bool{false, true} {
+					if g == "" && globFirst {
+						continue
+					}
+					for _, rsize := range []int{8, 16} {
+						secs := []secText{{"pa", ".romtext", a, prod}, {"pb", ".romtext", b, cons}}
+						metas := []string{"cpdef p0 romcode: pa, ramsize:8", "cpdef p1 romcode: pb, ramsize:8",
+							"ioatt lx cp: p0, index:0, type:output", "ioatt lx cp: p1, index:0, type:input",
+							"ioatt ly cp: p1, index:0, type:output", "ioatt ly cp: bm, index:0, type:output"}
+						if g != "" {
+							if globFirst {
+								metas = append([]string{"bmdef global iomode:" + g}, metas...)
+							} else {
+								metas = append(metas, "bmdef global iomode:"+g)
+							}
+						}
+						na, nb, ng := a, b, g
+						if na == "" {
+							na = "none"
+						}
+						if nb == "" {
+							nb = "none"
+						}
+						if ng == "" {
+							ng = "none"
+						}
+						emit(renderSource("", nil, false, secs, metas, rsize), fmt.Sprintf("iomode|secA-%s|secB-%s|global-%s|globfirst-%v|r%d", na, nb, ng, globFirst, rsize))
+					}
+				}
+			}
+		}
+	}
+}
+
 // GenerateAll enumerates every family for the tier.
 func GenerateAll(thorough bool, emit emitFn) map[string]any {
 	bounds := map[string]any{}
@@ -768,6 +826,8 @@ func GenerateAll(thorough bool, emit emitFn) map[string]any {
 	genData(emit)
 	genTwoCP(emit, thorough)
 	genSyncTwoCP(emit)
+	genIOModePrecedence(emit)
+	bounds["iomode_statement"] = "producer/consumer pair x (section A, section B, global) iomode statements in {none,sync,async}^3 with equal defined effective modes x global statement before/after the other metadata x r{8,16}"
 	bounds["sync_two_cp"] = "3 producers x 3 consumers over a handshaked (iomode:sync) link x cpdef order x section order x r{8,16}; compared as value sequences (timing independent)"
 	bounds["literals"] = "10 values x 6-8 notations (dec,0x,0X,0x0,0b,0b0,0d,0u) x {rset,mov} x r{8,16,32} x bm-output swap; sync mov forms (static oracle)"
 	bounds["macros"] = "8 macro definitions (0..2 args: reg/label/literal args) x nesting {none,first,last} x 0..2 uses at every gap pair x label-before-call x defined before/after; 1 macro shared by 2 CPs"
